@@ -2,7 +2,7 @@
    valuation satisfying the current path satisfies the path of some reported leaf, unless
    the bounded-loop log was written. *)
 From Coq Require Import ZArith List Bool Lia Arith.
-From HV Require Import Base.Word Spec.Evm Gen.GenJumpi Model.SymExec Model.SymCalls
+From HV Require Import Gen.GenBranch Proofs.SymCallsLemmas Base.Word Spec.Evm Gen.GenJumpi Model.SymExec Model.SymCalls
   Proofs.SymExecLemmas Proofs.SymExecSound Proofs.JumpiProofs.
 Import ListNotations.
 Open Scope Z_scope.
@@ -119,7 +119,7 @@ Proof.
     apply andb_true_iff in Einsuf. destruct Einsuf as [Etr Hne]. apply negb_true_iff in Hne.
     assert (Hh : holds rho (c, true)) by (unfold holds; cbn; exact Hne).
     assert (Ho : oracle (ss_path sg) c true <> R_UNSAT) by (intro Hu; apply (Hor _ _ _ Hu Hsat); exact Hh).
-    apply Z.eqb_neq in Ho. rewrite Etr, Ho. cbn [andb negb].
+    apply Z.eqb_neq in Ho. rewrite Etr, funds_fail_keep_eq, Ho. cbn [andb negb].
     apply covered_app_l; [apply Hrec; apply sat_cons; assumption|].
     intros H. rewrite H. reflexivity.
   - apply covered_app_r.
@@ -151,7 +151,7 @@ Proof.
     + apply covered_app_r; [apply resume_all_complete; apply Hrec; exact Hok|]. intros H. rewrite H. apply orb_true_r.
   - assert (Hh : holds rho (c, true)) by (unfold holds; cbn; exact Ec).
     assert (Ho : oracle (ss_path sg) c true <> R_UNSAT) by (intro Hu; apply (Hor _ _ _ Hu Hsat); exact Hh).
-    apply Z.eqb_neq in Ho. rewrite Ho. cbn [negb].
+    apply Z.eqb_neq in Ho. rewrite funds_fail_keep_eq, Ho. cbn [negb].
     destruct (sw_has_account w _);
       (apply covered_app_l; [apply Hrec; apply sat_cons; assumption|]; intros H; rewrite H; reflexivity).
 Qed.
